@@ -8,14 +8,15 @@ CONC_REASONS = {"43": "memory store: the lock operations of the real store are n
                 "73": "a total is negative"}
 PROP = {
     "parts": [{"name": "stress", "driver_prop": "STRESS", "glue": "GE", "chk": "chkE04", "explain": "explainE", "prelude": "From Chihaya Require Import Glue.G06 Glue.G10.",
-               "n": {"quick": 100, "thorough": 1500}, "reasons": {"1": "panic", "2": "number of responses differs from what the request calls for", "4": "error/connect response bytes differ from what THIS request calls for", "5": "response bytes differ from the BEP 15 encoding of the answer to THIS request", "12": "scrape counts differ"},
+               "n": {"quick": 100, "thorough": 1500}, "reasons": {"1": "panic", "2": "number of responses differs from what the request calls for", "4": "error/connect response bytes differ from what THIS request calls for", "5": "response bytes differ from the BEP 15 encoding of the answer to THIS request", "12": "scrape counts differ",
+                                                                      "13": "the membership left by concurrent announces is not the one the datagrams imply (a peer registered under bytes that are not its own request's: pooled buffer reuse)"},
                "gotags": ["shim_udp", "shim_http"]},
               {"name": "race", "driver_prop": "RACE", "glue": "GE", "chk": "chkE04", "explain": "explainE", "prelude": "From Chihaya Require Import Glue.G06 Glue.G10.",
-               "n": {"quick": 40, "thorough": 400}, "reasons": {}, "gotags": ["shim_udp", "shim_http"], "goflags": ["-race"], "env": {"GORACE": "halt_on_error=1 exitcode=66"}}],
+               "n": {"quick": 40, "thorough": 400}, "reasons": {"13": "the membership left by concurrent announces is not the one the datagrams imply"}, "gotags": ["shim_udp", "shim_http"], "goflags": ["-race"], "env": {"GORACE": "halt_on_error=1 exitcode=66"}}],
     "glue": "G04", "chk": "chk04", "explain": "explain04", "prelude": "From Chihaya Require Import Model.Tracker.\nOpen Scope Z_scope.",
     "gotags": CONC_TAGS, "mutex_rewrite": True,
     "n": {"quick": 100, "thorough": 4000},
-    "rule": "cases = (1) schedule-forced runs: pairs and triples of store steps on one swarm (same peer, other peers, other swarm: put/delete/graduate/scrape/selection/announce through the logic) and expiry passes concurrent with them, on the memory store (1 and 2 shards; the interleaving of the lock-delimited steps is chosen by a cooperative scheduler through a rewritten mutex) and on the Redis store (2 instances; the interleaving of the round-trips is chosen through wrapped connections); per scenario every non-preemptive schedule, every schedule with one preemption (thorough: two) and random schedules; (2) stress: 48 concurrent UDP clients against a real frontend (sockets, pooled buffers and generators), every response judged against the model's answer for ITS request; (3) the same workloads and 8-goroutine store hammering under the Go race detector. Non-trivial = at least two threads; distinct = distinct (scenario, schedule).",
+    "rule": "cases = (1) schedule-forced runs: pairs and triples of store steps on one swarm (same peer, other peers, other swarm: put/delete/graduate/scrape/selection/announce through the logic) and expiry passes concurrent with them, on the memory store (1 and 2 shards; the interleaving of the lock-delimited steps is chosen by a cooperative scheduler through a rewritten mutex) and on the Redis store (2 instances; the interleaving of the round-trips is chosen through wrapped connections); per scenario every non-preemptive schedule, every schedule with one preemption (thorough: two) and random schedules; (2) stress: 48 concurrent UDP clients against a real frontend (sockets, pooled buffers and generators), every response judged against the model's answer for ITS request, and 48 clients announcing with client-supplied addresses (allow_ip_spoofing) on swarms of their own: the membership after Stop must be exactly what the datagrams imply; (3) the same workloads and 8-goroutine store hammering under the Go race detector. Non-trivial = at least two threads; distinct = distinct (scenario, schedule).",
     "tags": {"2/3": "memory, 2/3 threads", "52/53": "memory with an expiry pass", "102/103": "redis, 2/3 threads", "152": "redis with an expiry pass"},
     "trivial_tags": [], "min_tags": 4, "reasons": CONC_REASONS,
     "assumptions": ["a lock-delimited critical section executes atomically (Go runtime / memory model; checked by the race detector part, not proved)", "miniredis executes commands one at a time like Redis", "yield points: before every lock acquisition and after every release (memory), before every round-trip (Redis)"],
